@@ -2,7 +2,7 @@ use vstd::prelude::*;
 use vstd::std_specs::convert::FromSpecImpl;
 
 //@item rodbus/src/error.rs | Shutdown
-//@item rodbus/src/error.rs | RequestError
+//@item rodbus/src/error.rs | RequestError | enumeq
 //@item rodbus/src/error.rs | InvalidRange
 //@item rodbus/src/error.rs | InternalError
 //@item rodbus/src/error.rs | FrameParseError
